@@ -107,7 +107,11 @@ impl Decoder for StreamingDecoder {
                 }
             } else {
                 // cannot parse complete message head yet
-                if src.len() > MAX_HEAD_SIZE {
+                //
+                // Finding the end of the head needs up to 4 bytes behind it (the line scanner looks at the 2 bytes
+                // following a line end and an unusual terminator such as `\n\r\n` is not counted as part of the
+                // head), a head that the check below accepts must not be refused here while these are awaited
+                if src.len() > MAX_HEAD_SIZE + 4 {
                     // do not allow a message head larger than that
                     src.clear();
 
